@@ -101,8 +101,15 @@ KeysOfType(env, sc, t, fuel) ==
          [] t.k = "inter" -> UNION {KeysOfType(env, sc, t.ts[i], fuel - 1) : i \in DOMAIN t.ts}
          [] OTHER -> {}
 
-RECURSIVE Member(_, _, _, _, _)
-Member(v, t, env, sc, fuel) ==
+(* ex = "no"   : object types are OPEN (TypeScript's structural reading; used wherever values only carry declared keys)      *)
+(* ex = "here" : object types are EXACT on the keys in play: a present (non-undef) key must be declared by the type; an       *)
+(*               intersection / __SelectionSet is exact on the union of its parts' keys.  Used by C02, whose abstract values   *)
+(*               carry keys of OTHER union branches: `{}` must not be read as admitting them.                                  *)
+(* ex = "below": this node's keys were already judged by the enclosing intersection; values below are exact again.            *)
+PresentKeys(v) == {key \in DOMAIN v.f : v.f[key].k # "undef"}
+Nested(ex) == IF ex = "no" THEN "no" ELSE "here"
+RECURSIVE MemberX(_, _, _, _, _, _)
+MemberX(v, t, env, sc, fuel, ex) ==
   IF fuel = 0 THEN FALSE
   ELSE
   CASE t.k = "kw" -> (CASE t.n = "string" -> v.k = "str" [] t.n = "number" -> v.k = "num" [] t.n = "boolean" -> v.k = "bool"
@@ -113,11 +120,14 @@ Member(v, t, env, sc, fuel) ==
     [] t.k = "lit" -> v.k = "str" /\ v.s = t.s
     [] t.k = "litnum" -> v.k = "num"
     [] t.k = "litbool" -> v.k = "bool"
-    [] t.k = "array" -> v.k = "list" /\ \A i \in DOMAIN v.vs : Member(v.vs[i], t.of, env, sc, fuel)
-    [] t.k = "union" -> \E i \in DOMAIN t.ts : Member(v, t.ts[i], env, sc, fuel)
-    [] t.k = "inter" -> \A i \in DOMAIN t.ts : Member(v, t.ts[i], env, sc, fuel)
-    [] t.k = "obj" -> v.k = "rec" /\ \A i \in DOMAIN t.fs :
-                        LET x == Read(v, t.fs[i].key) IN (t.fs[i].opt /\ x.k = "undef") \/ Member(x, t.fs[i].t, env, sc, fuel)
+    [] t.k = "array" -> v.k = "list" /\ \A i \in DOMAIN v.vs : MemberX(v.vs[i], t.of, env, sc, fuel, Nested(ex))
+    [] t.k = "union" -> \E i \in DOMAIN t.ts : MemberX(v, t.ts[i], env, sc, fuel, ex)
+    [] t.k = "inter" -> /\ (ex = "here" /\ v.k = "rec") => PresentKeys(v) \subseteq UNION {KeysOfType(env, sc, t.ts[i], 8) : i \in DOMAIN t.ts}
+                        /\ \A i \in DOMAIN t.ts : MemberX(v, t.ts[i], env, sc, fuel, IF ex = "no" THEN "no" ELSE "below")
+    [] t.k = "obj" -> /\ v.k = "rec"
+                      /\ ex = "here" => PresentKeys(v) \subseteq {t.fs[i].key : i \in DOMAIN t.fs}
+                      /\ \A i \in DOMAIN t.fs :
+                            LET x == Read(v, t.fs[i].key) IN (t.fs[i].opt /\ x.k = "undef") \/ MemberX(x, t.fs[i].t, env, sc, fuel, Nested(ex))
     [] t.k = "raw" -> v.k = "raw" /\ v.t = t.tokens
     [] t.k = "ref" ->
          IF IsSelSetRef(env, sc, t) THEN
@@ -127,10 +137,11 @@ Member(v, t, env, sc, fuel) ==
                 obj == t.args[2]
             IN /\ v.k = "rec"
                /\ obj.k = "obj"
+               /\ ex = "here" => PresentKeys(v) \subseteq ({obj.fs[i].key : i \in DOMAIN obj.fs} \cap origKeys) \cup KeysOfType(env, sc, t.args[3], 8)
                /\ \A i \in DOMAIN obj.fs :
                      obj.fs[i].key \in origKeys =>
-                        LET x == Read(v, obj.fs[i].key) IN (obj.fs[i].opt /\ x.k = "undef") \/ Member(x, obj.fs[i].t, env, sc, fuel)
-               /\ Member(v, t.args[3], env, sc, fuel)
+                        LET x == Read(v, obj.fs[i].key) IN (obj.fs[i].opt /\ x.k = "undef") \/ MemberX(x, obj.fs[i].t, env, sc, fuel, Nested(ex))
+               /\ MemberX(v, t.args[3], env, sc, fuel, IF ex = "no" THEN "no" ELSE "below")
          ELSE IF IsOmitTypename(t) THEN
             (* Omit<X, "__typename"> for X resolving to an object type: X without that key *)
             LET x == t.args[1]
@@ -138,15 +149,28 @@ Member(v, t, env, sc, fuel) ==
             IN IF r.k = "decl" /\ r.stmt.t.k = "obj"
                THEN LET o == r.stmt.t dsc == ScopeOfDecl(r) IN
                     v.k = "rec" /\ \A i \in DOMAIN o.fs : o.fs[i].key = "__typename" \/
-                        (LET y == Read(v, o.fs[i].key) IN (o.fs[i].opt /\ y.k = "undef") \/ Member(y, o.fs[i].t, env, dsc, fuel - 1))
+                        (LET y == Read(v, o.fs[i].key) IN (o.fs[i].opt /\ y.k = "undef") \/ MemberX(y, o.fs[i].t, env, dsc, fuel - 1, Nested(ex)))
                ELSE TRUE
          ELSE LET r == Lookup(env, sc, t.path) IN
               CASE r.k = "param" -> v.k = "param" /\ v.n = r.n
                 [] r.k = "global" -> v.k = "glob" /\ v.n = r.n
                 [] r.k = "missing" -> TRUE                    \* an unresolved member is an error type (any); reported separately (Dangling)
                 [] r.k = "decl" -> IF v.k = "inst" /\ IsDeclOfType(env, r, v.n) THEN TRUE
-                                   ELSE Member(v, r.stmt.t, env, ScopeOfDecl(r), fuel - 1)
+                                   ELSE MemberX(v, r.stmt.t, env, ScopeOfDecl(r), fuel - 1, ex)
     [] OTHER -> FALSE
+Member(v, t, env, sc, fuel) == MemberX(v, t, env, sc, fuel, "no")
+MemberExact(v, t, env, sc, fuel) == MemberX(v, t, env, sc, fuel, "here")
+
+(* keys that a __SelectionSet silently drops because the schema declaration it refers to lacks them *)
+RECURSIVE DroppedKeys(_, _, _)
+DroppedKeys(t, env, sc) ==
+  CASE t.k = "ref" -> (IF IsSelSetRef(env, sc, t) /\ t.args[2].k = "obj"
+                       THEN {t.args[2].fs[i].key : i \in DOMAIN t.args[2].fs} \ KeysOfType(env, sc, t.args[1], 8) ELSE {})
+                      \cup UNION {DroppedKeys(t.args[i], env, sc) : i \in DOMAIN t.args}
+    [] t.k = "array" -> DroppedKeys(t.of, env, sc)
+    [] t.k \in {"union", "inter"} -> UNION {DroppedKeys(t.ts[i], env, sc) : i \in DOMAIN t.ts}
+    [] t.k = "obj" -> UNION {DroppedKeys(t.fs[i].t, env, sc) : i \in DOMAIN t.fs}
+    [] OTHER -> {}
 
 (* references that should resolve inside the emitted files but do not *)
 RECURSIVE Dangling(_, _, _)
